@@ -67,12 +67,12 @@ type slot struct {
 }
 
 type model struct {
-	dir      string
-	acc      *config.TxnPoliciesAccessor
-	loaded   int    // marker number of the last loaded policies file
-	current  string // marker every new transaction must get
-	slots    [2]slot
-	reloads  int
+	dir     string
+	acc     *config.TxnPoliciesAccessor
+	loaded  int    // marker number of the last loaded policies file
+	current string // marker every new transaction must get
+	slots   [2]slot
+	reloads int
 }
 
 func policiesYAML(k int) string {
